@@ -35,7 +35,9 @@ type Solver struct {
 	log     io.Writer
 	owner   *TermTable
 
-	timeoutMS int
+	timeoutMS  int
+	curTimeout int
+	nra        bool // float_mode=real: use the NRA portfolio in Check
 	// stats
 	Queries  int
 	NSat     int
@@ -91,6 +93,7 @@ func (s *Solver) sendOptions() {
 	} else {
 		s.send("(set-option :global-decls true)")
 		s.send(fmt.Sprintf("(set-option :timeout %d)", s.timeoutMS))
+		s.curTimeout = s.timeoutMS
 		s.send("(set-option :pp.decimal true)")
 		s.send("(set-option :pp.decimal_precision 25)")
 		s.send("(set-option :model.completion true)")
@@ -194,9 +197,38 @@ func (s *Solver) Assert(t *Term) {
 }
 
 // Check runs (check-sat). Any "(error" output makes the result Unknown.
+//
+// With nra set (float_mode=real) a portfolio is used: the default strategy
+// under a short time limit, then a sum-of-monomials normalisation followed by
+// the SMT core (decides polynomial identities that nlsat does not finish),
+// then the default strategy under the full limit. Every stage is z3; the
+// first definite answer is taken.
 func (s *Solver) Check() SatResult {
+	if !s.nra || strings.Contains(s.bin, "cvc5") {
+		return s.checkOnce("(check-sat)", s.timeoutMS, true)
+	}
+	short := s.timeoutMS / 8
+	if short < 1500 {
+		short = 1500
+	}
+	r := s.checkOnce("(check-sat)", short, false)
+	if r != Unknown {
+		return r
+	}
+	r = s.checkOnce("(check-sat-using (then (using-params simplify :som true :arith_lhs true :som_blowup 1000000) smt))", s.timeoutMS/2, false)
+	if r != Unknown {
+		return r
+	}
+	return s.checkOnce("(check-sat)", s.timeoutMS, true)
+}
+
+func (s *Solver) checkOnce(cmd string, timeoutMS int, final bool) SatResult {
 	t0 := time.Now()
-	s.send("(check-sat)")
+	if timeoutMS != s.curTimeout && !strings.Contains(s.bin, "cvc5") {
+		s.send(fmt.Sprintf("(set-option :timeout %d)", timeoutMS))
+		s.curTimeout = timeoutMS
+	}
+	s.send(cmd)
 	s.send("(echo \"@@done\")")
 	res := Unknown
 	sawErr := false
@@ -204,7 +236,7 @@ func (s *Solver) Check() SatResult {
 	// watchdog: z3's own :timeout is not honoured inside some tactics
 	proc := s.cmd.Process
 	timedOut := false
-	timer := time.AfterFunc(time.Duration(s.timeoutMS)*time.Millisecond*3/2+2*time.Second, func() {
+	timer := time.AfterFunc(time.Duration(timeoutMS)*time.Millisecond*3/2+2*time.Second, func() {
 		timedOut = true
 		proc.Kill()
 	})
@@ -243,6 +275,10 @@ func (s *Solver) Check() SatResult {
 	}
 	if sawErr || !got {
 		res = Unknown
+	}
+	if res == Unknown && !final {
+		s.Time += time.Since(t0)
+		return res
 	}
 	s.Queries++
 	s.sinceRestart++
